@@ -36,6 +36,7 @@ type c18Case struct {
 	External  int    `json:"external"`              // >= 0: somebody else scales the StatefulSet to this count between Replicas() and ChangeScale()
 	Missing   uint32 `json:"missingMask,omitempty"` // bit k: pod k is not in the listing (lost and not yet re-created)
 	Foreign   bool   `json:"foreignPod,omitempty"`  // a pod of another workload carries the same labels (kubectl debug --copy-to)
+	Relist    bool   `json:"relist,omitempty"`      // after the first listing pods are re-created with other IPs (or get / lose their IP) and the SAME replicas manager lists again
 }
 
 const maxN = 12 // ordinals >= 10 matter: "prom-10" sorts before "prom-2" as a string
@@ -103,6 +104,15 @@ func c18Cases(tier string) []c18Case {
 			cs = append(cs, c18Case{Old: old, New: old, Templates: 1, Order: order, Ready: (1 << uint(old)) - 1, Then: -1, External: -1, Foreign: true})
 			if old >= 3 {
 				cs = append(cs, c18Case{Old: old, New: old, Templates: 1, Order: order, Ready: (1 << uint(old)) - 1, Then: -1, External: -1, Missing: 3})
+			}
+		}
+	}
+	// the coordinator holds ONE replicas manager for its whole life: pods re-created between two listings come back with
+	// other addresses, pods without an IP get one, pod 0 loses its IP
+	for _, old := range []int{1, 2, 3, 5, 11, 12} {
+		for order := 0; order < 6; order++ {
+			for _, m := range []uint32{(1 << uint(old)) - 1, 0x555 & ((1 << uint(old)) - 1), 0} {
+				cs = append(cs, c18Case{Old: old, New: old, Templates: 1, Order: order, Ready: m, Then: -1, External: -1, Relist: true, TwoSets: order%2 == 0})
 			}
 		}
 	}
@@ -323,6 +333,72 @@ func runC18(w *core.WorkerCtx, idx int) *core.CaseResult {
 			res.AddStat("addresses_checked", 1)
 		}
 	}
+	if c.Relist {
+		// second listing through the same replicas manager after the pods changed
+		ready2 := map[int]string{}
+		for k := 0; k < c.Old; k++ {
+			name := fmt.Sprintf("%s-%d", set, k)
+			p, err := cli.CoreV1().Pods(ns).Get(nil2ctx(), name, metav1.GetOptions{})
+			if err != nil {
+				res.Inconcl = "harness: pod " + name + ": " + err.Error()
+				return res
+			}
+			switch {
+			case k == 0 && c.Old > 1:
+				p.Status.PodIP = "" // being re-created right now
+			default:
+				p.Status.PodIP = fmt.Sprintf("10.77.%d.%d", idx%200, k+10)
+				ready2[k] = p.Status.PodIP
+			}
+			if _, err := cli.CoreV1().Pods(ns).UpdateStatus(nil2ctx(), p, metav1.UpdateOptions{}); err != nil {
+				res.Inconcl = "harness: update pod: " + err.Error()
+				return res
+			}
+		}
+		mgrs2, err := rm.Replicas()
+		if err != nil || len(mgrs2) == 0 {
+			res.Violate("C18/replicas-error", "second Replicas(): %v (%d managers)", err, len(mgrs2))
+			return res
+		}
+		var m2 = mgrs2[0]
+		for _, x := range mgrs2 {
+			if l, err := x.Shards(); err == nil && len(l) == c.Old && (c.Old == 0 || l[0].ID == fmt.Sprintf("%s-0", set)) {
+				m2 = x
+			}
+		}
+		shards2, err := m2.Shards()
+		if err != nil {
+			res.Violate("C18/shards-error", "second Shards(): %v", err)
+			return res
+		}
+		res.AddStat("second_listings_after_pods_changed", 1)
+		if len(shards2) != c.Old {
+			res.Violate("C18/shard-count", "second listing: %d shards for %d pods", len(shards2), c.Old)
+		}
+		for k, s := range shards2 {
+			ip, ready := ready2[k]
+			if s.ID != fmt.Sprintf("%s-%d", set, k) {
+				res.Violate("C18/shard-order", "second listing: position %d holds shard %q", k, s.ID)
+				continue
+			}
+			if s.Ready != ready {
+				res.Violate("C18/shard-readiness", "second listing: shard %s ready=%v, pod has IP=%v (first listing: pod had IP=%v)", s.ID, s.Ready, ready, c.Ready&(1<<uint(k)) != 0)
+			}
+			if ready {
+				var got string
+				s.APIGet = func(url string, ret interface{}) error { got = url; return fmt.Errorf("stop") }
+				_, _ = s.RuntimeInfo()
+				if !strings.HasPrefix(got, fmt.Sprintf("http://%s:%d/", ip, port)) {
+					res.Violate("C18/shard-address", "second listing through the same replicas manager: shard %s is contacted at %q, its pod now has the address %s (at the first listing: IP present = %v)", s.ID, got, ip, c.Ready&(1<<uint(k)) != 0)
+				}
+				res.AddStat("addresses_checked", 1)
+			}
+		}
+		if len(res.Viol) > 0 {
+			res.Witness = c
+		}
+		return res
+	}
 	// ---- ChangeScale: one or two calls on the same manager object, possibly after an external change
 	live := c.Old
 	if c.External >= 0 {
@@ -486,6 +562,7 @@ func init() {
 		Level: "exploration",
 		Rule: "exhaustive sweep within bounds: current and requested replica count in 0..12 (two-digit ordinals included) x 0..2 volume claim templates x deletion flag x 6 pod-list order classes x readiness patterns (quick: none / all / two alternating masks; thorough: every subset of pods with an IP up to 6 pods, 16 random subsets above), each with claims for all ordinals 0..12 of two StatefulSets plus decoys with similar names (data-prom-100, xdata-prom-1, data-promx-0, data-prom-b-k) and, in half of the cases, a second StatefulSet 'prom-b'; plus, for counts 0..6, every (first request, second request on the SAME manager object) pair and every (count set by somebody else behind the manager's back, request) pair; plus rolling-update-in-progress cases; plus update-rejected cases (Conflict / server error: the count stays, no claim may go); plus scripted lives of a StatefulSet over 4-11 cycles (ready / not ready / three shapes of a rolling update, 0-130 s passing between cycles through the verif hook that shifts the manager's not-ready timers): while a rolling update is in progress it must not be handed to the coordinator, however long it lasts; " +
 			"the real kubernetes.ReplicasManager / shard manager run on a client-go fake clientset; oracle over returned shards (ID, readiness, contacted URL) and over the fake's action log and objects; " +
+			"plus second listings through the SAME replicas manager after every pod was re-created with another IP, pods without an IP got one and pod 0 lost its IP (1-12 pods, six order classes, three readiness masks); " +
 			"plus listings with one or two pods missing and/or a foreign pod carrying the selector's labels (2-12 pods, six order classes): no position may be ready unless the pod of that ordinal is listed with an IP, and no ready shard appears twice; " +
 			"non-trivial = every case; distinct = the parameter tuple",
 		Assumptions: []string{
